@@ -23,7 +23,11 @@ where
         start_state: StIdx<StorageT>,
         edges: Vec<HashMap<Symbol<StorageT>, StIdx<StorageT>>>,
     ) -> Self {
-        assert!(states.len() < num_traits::cast(StorageT::max_value()).unwrap());
+        // The state table encodes "no entry" as 0 and states as their index plus one, so it can
+        // only deal with StorageT::max_value() - 2 states.
+        if states.len() + 1 >= num_traits::cast(StorageT::max_value()).unwrap() {
+            panic!("StorageT is not big enough to store this stategraph.");
+        }
         StateGraph {
             states,
             start_state,
